@@ -611,6 +611,23 @@ class AsyncLoopContext(LoopContext):
 
         return self._length
 
+    def __len__(self) -> int:
+        # ``length`` is a coroutine here. Creating it without awaiting it
+        # fails with an unrelated TypeError and a "never awaited"
+        # warning, so only answer when no awaiting is needed.
+        if self._length is None:
+            self._length = len(self._iterable)  # type: ignore
+
+        return self._length
+
+    def __repr__(self) -> str:
+        try:
+            length: t.Any = len(self)
+        except TypeError:
+            length = "?"
+
+        return f"<{type(self).__name__} {self.index}/{length}>"
+
     @property
     async def revindex0(self) -> int:  # type: ignore
         return await self.length - self.index
